@@ -1,7 +1,8 @@
 #!/bin/sh
-# exploratory prototype (design round): serialise a few real hierArc functions and prove C03/C04 facts about them
+# exploratory prototype (design round): serialise real hierArc functions and prove C03/C04/C09 facts about them
 set -e
 python3 py2coq.py spec.json Src.v
-for f in PyAst PyVal PySem Src XLemmas Unfold Test1 Test3 Corr TestN; do timeout 300 coqc -Q . Py $f.v; done
-rm -f *.vo *.vok *.vos *.glob .*.aux Src.v
+python3 py2coq.py spec2.json Src2.v
+for f in PyAst PyVal PySem Src Src2 XLemmas Unfold Test1 Test3 Corr TestN TestRec; do timeout 300 coqc -Q . Py $f.v > /dev/null; done
+rm -f *.vo *.vok *.vos *.glob .*.aux Src.v Src2.v
 echo PROTOTYPE_OK
